@@ -287,7 +287,8 @@ def transform_case(case, tr, rng_params):
             num, den = case['minv']
             c2['minv'] = [a * num + b * den, den]
         # user criteria follow the value map (sums are not affine-invariant: excluded by the generator)
-        c2['crits'] = [[c[0], a * c[1] + b] if c[0] in ('peak', 'peakacc') else c for c in case.get('crits', [])]
+        c2['crits'] = [[c[0], a * c[1] + b] if c[0] in ('peak', 'peakacc') else [c[0], a * c[1]] if c[0] == 'udelta' else c
+                       for c in case.get('crits', [])]
     if kind == 'rescale':
         # the same integers with a finer binary point: every value, threshold and min_delta divided by 2**j
         c2['fb'] = case['fb'] + tr[1]
